@@ -23,6 +23,7 @@ RULE = (
     ' Also: refusal of plates holding observed and masked rows (partial set_observed, mixed merge).'
     ' Also: production-size refusals (70000 .. 524298 observations, one NaN / negative value near the end): nothing kept, the repaired batch counts once.'
     ' Also: first batch / sweep / second batch / sweep on one model (rows and intercept).'
+    ' Interaction model: a layout in which the only single-agent measurement of one (sample, treatment) is masked (twins must be refused or run alike).'
 )
 ASSUMPTIONS = [
     "both runs execute under 'controlled randomness' (global numpy state seeded, unseeded default_rng() made a function of the seed) so that non-interference is decided independently of C18",
@@ -337,6 +338,37 @@ def check_case(case):
         for key, what in (("raised", "outcome (an exception)"), ("training", "data handed to the model"), ("n_obs", "number of training observations"), ("table", "single-effect table"), ("thetas", "posterior samples"), ("dense", "distance matrix"), ("scores", "plate scores"), ("chosen", "selected plate")):
             if key in a2 or key in b2:
                 require(_same(a2.get(key), b2.get(key)), "noninterference.with_options." + key, lambda: "with model options %r: %s differ between two screens that differ only in masked observation values: %r vs %r" % (case["model_opts"], what, _short(a2.get(key)), _short(b2.get(key))))
+
+    # ---- a single-agent measurement that sits behind the mask: the only single-agent row of one (sample, treatment) is moved to a masked
+    # plate (it is then known to the screen but not to the trained model); whatever the pipeline does with such a screen - refuse
+    # it or run - it does the same for both twins, which now also differ in that row's masked value
+    masked_plates = sorted({r["p"] for r in rows if r["p"] not in set(sc["observed"])})
+    singles = [i for i, r in enumerate(rows) if r["p"] in set(sc["observed"]) and r["t"].count("ctl") == 1]
+    if case["model"] == "SparseDrugComboInteraction" and not case["cli"] and singles and masked_plates:
+        j = singles[case["seed"] % len(singles)]
+        key_ = (rows[j]["s"], tuple(sorted(zip(rows[j]["t"], rows[j]["d"]))))
+        same_ = [i for i in singles if (rows[i]["s"], tuple(sorted(zip(rows[i]["t"], rows[i]["d"])))) == key_ or (rows[i]["s"] == rows[j]["s"] and set(rows[i]["t"]) == set(rows[j]["t"]))]
+        moved = [dict(r, p=masked_plates[0]) if i in same_ else r for i, r in enumerate(rows)]
+        if any(r["p"] in set(sc["observed"]) for r in moved):
+            moved_b = [dict(r, o=(0.123 if i in same_ else case["twin"].get(str(i), r["o"])) if r["p"] not in set(sc["observed"]) else r["o"]) for i, r in enumerate(moved)]
+            obs_left = sorted({r["p"] for r in moved if r["p"] in set(sc["observed"])})
+            sa_ = S.build_screen(dict(sc, rows=moved, observed=obs_left), treatment_mapping=tm, sample_mapping=sm)
+            sb_ = S.build_screen(dict(sc, rows=moved_b, observed=obs_left), treatment_mapping=tm, sample_mapping=sm)
+
+            def attempt_moved(screen_):
+                ps = []
+                try:
+                    with np.errstate(all="ignore"):
+                        return _run_pipeline(dict(case, n_chains=1), screen_, ps)
+                except Exception as e:  # (the pinned tree refuses such a screen in the distance step: a KeyError for the missing effect)
+                    return {"raised": type(e).__name__}
+                finally:
+                    tmp.cleanup(*ps)
+
+            a3, b3 = attempt_moved(sa_), attempt_moved(sb_)
+            for key, what in (("raised", "outcome (an exception)"), ("training", "data handed to the model"), ("table", "single-effect table"), ("thetas", "posterior samples"), ("dense", "distance matrix"), ("scores", "plate scores"), ("chosen", "selected plate")):
+                if key in a3 or key in b3:
+                    require(_same(a3.get(key), b3.get(key)), "noninterference.single_agent_behind_mask." + key, lambda: "a (sample, treatment) whose only single-agent measurement is masked: %s differ between two screens that differ only in masked observation values: %r vs %r" % (what, _short(a3.get(key)), _short(b3.get(key))))
 
     # ---- training-set oracle (API path only: the arrays are observable there)
     cls = _model_cls(case["model"])
